@@ -25,6 +25,7 @@ type Config struct {
 	MaxPaths      int
 	WriteMonitor  bool // C20: report stores into pre-existing objects
 	StopOnFirst   bool
+	ArbWide       bool // vrt.Arbitrary: collections of up to 2 entries one level deeper
 }
 
 func DefaultConfig() Config {
@@ -80,6 +81,7 @@ type PathResult struct {
 	Unknown   int
 	Steps     int
 	Reached   []string
+	Required  []string
 	Decisions []int
 }
 
@@ -623,6 +625,7 @@ type HarnessResult struct {
 	Findings   []Finding
 	Unsupp     map[string]int
 	Reached    map[string]int
+	Required   map[string]bool
 	Truncated  bool
 	Wall       time.Duration
 }
@@ -637,7 +640,7 @@ type SolverStats struct {
 func (e *Engine) Explore(harnesses []Task, st *Stats) (map[string]*HarnessResult, SolverStats) {
 	results := map[string]*HarnessResult{}
 	for _, h := range harnesses {
-		results[h.Harness] = &HarnessResult{Harness: h.Harness, Outcomes: map[string]int{}, Unsupp: map[string]int{}, Reached: map[string]int{}}
+		results[h.Harness] = &HarnessResult{Harness: h.Harness, Outcomes: map[string]int{}, Unsupp: map[string]int{}, Reached: map[string]int{}, Required: map[string]bool{}}
 	}
 	var mu sync.Mutex
 	cond := sync.NewCond(&mu)
@@ -723,6 +726,9 @@ func (e *Engine) Explore(harnesses []Task, st *Stats) (map[string]*HarnessResult
 				}
 				for _, r := range res.Reached {
 					hr.Reached[r]++
+				}
+				for _, r := range res.Required {
+					hr.Required[r] = true
 				}
 				for _, m := range more {
 					work = append(work, Task{Harness: t.Harness, Fn: t.Fn, Prefix: m})
